@@ -239,10 +239,10 @@ def gen_selection_cases(ctx):
     return cases
 
 
-def eval_selection(ctx, cases, group='selection'):
+def eval_selection(ctx, cases, group='selection', given=None):
     terms, outs = [], []
-    for c in cases:
-        out = run_selection_case(c)
+    for k, c in enumerate(cases):
+        out = given[k] if given is not None else run_selection_case(c)
         outs.append(out)
         terms.append(selection_coq(c, out))
     canary = None
@@ -347,10 +347,10 @@ def gen_elitism_cases(ctx):
     return cases
 
 
-def eval_elitism(ctx, cases, group='elitism'):
+def eval_elitism(ctx, cases, group='elitism', given=None):
     terms, outs = [], []
-    for c in cases:
-        out = run_elitism_case(c)
+    for k, c in enumerate(cases):
+        out = given[k] if given is not None else run_elitism_case(c)
         outs.append(out)
         terms.append(elitism_coq(c, out))
     canary = group == 'elitism'
@@ -435,10 +435,10 @@ def gen_inheritance_cases(ctx):
     return cases
 
 
-def eval_inheritance(ctx, cases, group='inheritance'):
+def eval_inheritance(ctx, cases, group='inheritance', given=None):
     terms, outs = [], []
-    for c in cases:
-        out = run_inheritance_case(c)
+    for k, c in enumerate(cases):
+        out = given[k] if given is not None else run_inheritance_case(c)
         outs.append(out)
         terms.append(inheritance_coq(c, out))
     canary = group == 'inheritance'
@@ -626,7 +626,122 @@ def eval_reproduction(ctx, cases, group='reproduction'):
 
 
 # ----------------------------------------------------------------------------------------
-EVAL = {'sel': eval_selection, 'eli': eval_elitism, 'inh': eval_inheritance, 'rep': eval_reproduction}
+# sessions: ONE Selection / Inheritance / Elitism instance and ONE GPAlgorithmParameters object
+# that is changed in place between calls (the way EvoGraphOptimizer does), followed by
+# update_requirements(the same object) or by no update at all; every call must satisfy the
+# clauses for the parameters in force at that call
+# ----------------------------------------------------------------------------------------
+SESSION_PARAMS = ('pop_size', 'min_pop', 'et', 't', 'sc', 'multi')
+
+
+def _apply_params(params, st):
+    params.pop_size = st['pop_size']
+    params.min_pop_size_with_elitism = st['min_pop']
+    params.elitism_type = ELI[st['et']][0]
+    params.selection_types = [SEL[st['t']][0]]
+    params.genetic_scheme_type = SCH[st['sc']][0]
+    params.multi_objective = st['multi']
+
+
+def run_session(session):
+    """returns the per-call cases (in the format of the stand-alone groups, parameters in force
+    at the call) and the observed outputs"""
+    st = dict(session['init'])
+    params = GPAlgorithmParameters(pop_size=st['pop_size'], min_pop_size_with_elitism=st['min_pop'],
+                                   elitism_type=ELI[st['et']][0], selection_types=[SEL[st['t']][0]],
+                                   genetic_scheme_type=SCH[st['sc']][0], multi_objective=st['multi'])
+    selection = Selection(params)
+    inheritance = Inheritance(params, selection)
+    elitism = Elitism(params)
+    pool = Pool()
+    cases, outs = [], []
+    for k, step in enumerate(session['steps']):
+        st.update(step['set'])
+        _apply_params(params, st)          # in place: the operators hold the same object
+        if step['update']:
+            for op in (selection, inheritance, elitism):
+                op.update_requirements(params)
+        call = step['call']
+        seed_impl(session['seed'] + k)
+        tag = {'session': session, 'step': k, 'seed': session['seed'] + k}
+        try:
+            if call['kind'] == 'eli':
+                c = dict(tag, op='eli', et=st['et'], multi=st['multi'], pop_size=st['pop_size'], min_pop=st['min_pop'],
+                         best=call['best'], new=call['new'])
+                out = [pool.describe(o) for o in elitism(pool.build(call['best']), pool.build(call['new']))]
+            elif call['kind'] == 'sel':
+                c = dict(tag, op='sel', t=st['t'], multi=st['multi'], default=st['pop_size'], ps=call['ps'], pop=call['pop'])
+                out = [pool.describe(o) for o in selection(pool.build(call['pop']), call['ps'] if call['ps'] else None)]
+            else:
+                c = dict(tag, op='inh', sc=st['sc'], t=st['t'], multi=st['multi'], pop_size=st['pop_size'],
+                         prev=call['prev'], new=call['new'])
+                out = [pool.describe(o) for o in inheritance(pool.build(call['prev']), pool.build(call['new']))]
+        except Exception as ex:
+            c['exception'] = '%s: %s' % (type(ex).__name__, ex)
+            out = None if call['kind'] != 'eli' else []
+        cases.append(c)
+        outs.append(out)
+    return cases, outs
+
+
+def gen_sessions(ctx):
+    r = ctx.rng
+    sessions = []
+    for _ in range(ctx.budget(500, 3500)):
+        multi_fit = r.random() < 0.25
+        init = {'pop_size': r.choice([2, 3, 4, 4, 5, 8]), 'min_pop': 5, 'et': r.choice(['keep_n_best', 'replace_worst', 'none']),
+                't': r.choice(['tournament', 'spea2']), 'sc': r.choice(list(SCH)), 'multi': multi_fit}
+        pool = rand_pool(r, r.randint(2, 12), multi_fit)
+        extra = rand_pool(r, r.randint(0, 5), multi_fit, uid0=100)
+        steps = []
+        for _k in range(r.randint(2, 6)):
+            change = {}
+            for name in r.sample(['pop_size', 'pop_size', 'et', 't', 'sc', 'multi', 'min_pop'], r.choice([0, 1, 1, 2, 3])):
+                if name == 'pop_size':
+                    change[name] = r.choice([1, 2, 3, 5, 6, 8, 10, 15])
+                elif name == 'et':
+                    change[name] = r.choice(['keep_n_best', 'replace_worst', 'none'])
+                elif name == 't':
+                    change[name] = r.choice(['tournament', 'spea2'])
+                elif name == 'sc':
+                    change[name] = r.choice(list(SCH))
+                elif name == 'multi' and not multi_fit:
+                    change[name] = r.random() < 0.3
+                elif name == 'min_pop':
+                    change[name] = r.choice([1, 5, 5, 8])
+            kind = r.choice(['eli', 'eli', 'sel', 'inh'])
+            rp = r.choice([0.0, 0.0, 0.2])
+            if kind == 'eli':
+                new = rand_population(r, pool, r.randint(1, len(pool)), 0.0)
+                best = sort_archive(rand_population(r, pool + extra, r.randint(1, min(6, len(pool) + len(extra))), 0.0))
+                call = {'kind': 'eli', 'best': best, 'new': new}
+            elif kind == 'sel':
+                call = {'kind': 'sel', 'pop': rand_population(r, pool, r.randint(1, 15), rp), 'ps': r.choice([0, 0, r.randint(1, 15)])}
+            else:
+                call = {'kind': 'inh', 'new': rand_population(r, pool, r.randint(1, 12), rp),
+                        'prev': rand_population(r, pool + extra, r.randint(1, 12), rp)}
+            steps.append({'set': change, 'update': r.random() < 0.5, 'call': call})
+        sessions.append({'op': 'session', 'multi_fit': multi_fit, 'init': init, 'steps': steps, 'seed': r.randrange(10 ** 6)})
+    return sessions
+
+
+def eval_sessions(ctx, sessions, group='sessions'):
+    by_op = {'sel': ([], []), 'eli': ([], []), 'inh': ([], [])}
+    for s in sessions:
+        cases, outs = run_session(s)
+        for c, o in zip(cases, outs):
+            by_op[c['op']][0].append(c)
+            by_op[c['op']][1].append(o)
+    for op, fn in (('sel', eval_selection), ('eli', eval_elitism), ('inh', eval_inheritance)):
+        cases, outs = by_op[op]
+        if cases:
+            fn(ctx, cases, group=group, given=outs)
+    return [None] * len(sessions)
+
+
+# ----------------------------------------------------------------------------------------
+EVAL = {'sel': eval_selection, 'eli': eval_elitism, 'inh': eval_inheritance, 'rep': eval_reproduction,
+        'session': eval_sessions}
 
 
 def run(ctx):
@@ -637,7 +752,10 @@ def run(ctx):
                 'spea2} x {steady_state, generational, parameter_free} x {keep_n_best, replace_worst, none} x single / '
                 'multi objective; an exhaustive small scope (all sequences of length <= 4 over 3 individuals) for '
                 'selection and elitism; reproduction: sequences of 1..3 reproduce() calls with a scripted evaluator that '
-                'drops individuals. distinct = distinct (operator, configuration, input); non-trivial = the selection '
+                'drops individuals; SESSIONS: one Selection / Inheritance / Elitism instance sharing one GPAlgorithmParameters '
+                'object that is changed in place between 2..6 calls (pop_size, min_pop_size_with_elitism, elitism type, '
+                'selection type, scheme, multi_objective), with update_requirements(the same object) or no update, each call '
+                'judged for the parameters in force. distinct = distinct (operator, configuration, input); non-trivial = the selection '
                 'function proper is reached (more distinct individuals than requested) / elitism applies / steady-state '
                 'merge exceeds pop_size or generational / the evaluator dropped at least one individual')
     ctx.trusted_extra = [
@@ -657,7 +775,8 @@ def run(ctx):
         del _PENDING[:]
         _eval_replays(ctx, pending)
     groups = [('sel', gen_selection_cases(ctx)), ('eli', gen_elitism_cases(ctx)),
-              ('inh', gen_inheritance_cases(ctx)), ('rep', gen_reproduction_cases(ctx))]
+              ('inh', gen_inheritance_cases(ctx)), ('rep', gen_reproduction_cases(ctx)),
+              ('session', gen_sessions(ctx))]
     for op, cases in groups:
         outs = EVAL[op](ctx, cases)
         for c, o in list(zip(cases, outs))[-1:]:
@@ -673,13 +792,15 @@ def _replay_cases(payload):
     case = v.get('case') if isinstance(v, dict) else None
     if not case or 'op' not in case:
         return []
+    if 'session' in case:          # a call inside a session: replay the whole session
+        return [case['session']]
     case = {k: val for k, val in case.items() if k not in ('observed', 'exception')}
     # the operators are randomised: replay the input under several seeds of the implementation
     return [dict(case, seed=case.get('seed', 0) + i) for i in range(20 if case['op'] != 'rep' else 1)]
 
 
 def _eval_replays(ctx, cases):
-    for op in ('sel', 'eli', 'inh', 'rep'):
+    for op in ('sel', 'eli', 'inh', 'rep', 'session'):
         sub = [c for c in cases if c['op'] == op]
         if sub:
             EVAL[op](ctx, sub, group='replay')
